@@ -259,6 +259,7 @@ def run(chk):
     c15.whole_streams(chk, 'connection')
     c10.relogin(chk)          # compression / cipher state of an earlier session never frames the next one
     c12.reentrant_disconnect(chk)      # a listener that disconnects from inside a write: every queued packet is framed once
+    transient_send_fault(chk, Raw, [c for c in combos if sum(len(d) for _i, d, _k in c[2]) < 20000], rng)
     chk.assumptions += ['zlib is library code: in the model inflate/deflate are a table computed by the harness with Python zlib (the theorems hold for every codec with inflate(deflate x) = x)',
                         'BytesIO / select / the kernel socket layer are replaced by the simulated transport: a read returns 1..n bytes or, at end of stream, none']
 
@@ -289,6 +290,60 @@ def writer_side(chk, Raw, combos):
             got = r[1][0] if r[0] == 'ok' else r
             chk.violation('writer', 'writer:%s:%s' % (thr, secret is not None), {'case': case_of(seq, thr, secret, None), 'wire': wire.hex()[:2000], 'observed': repr(got)[:600]},
                           'packets written with threshold %s%s do not parse back as the same (id, payload) sequence' % (thr, ', encrypted' if secret else ''))
+
+
+def transient_send_fault(chk, Raw, combos, rng):
+    """One send() call of the underlying socket fails once with a transient error (a socket timeout the application set, a
+    signal): the error reaches the caller of Packet.write, and what is on the wire is a prefix of the stream a fault-free run
+    writes (the caller gives the connection up); if an implementation absorbs the error instead and goes on, the complete wire
+    must still be that stream - never a frame, or part of one, twice."""
+    import socket as _socket
+    from minecraft.networking import encryption
+    from minecraft.networking.connection import ConnectionContext
+
+    class Faulty(object):
+        def __init__(self, at, exc):
+            self.sends, self.calls, self.at, self.exc = [], 0, at, exc
+
+        def send(self, data):
+            self.calls += 1
+            if self.calls == self.at:
+                raise self.exc
+            self.sends.append(bytes(data))
+            return len(data)
+    for thr, comp, seq, secret in combos:
+        if not seq:
+            continue
+        clean = b''.join(impl_write(Raw, seq, thr, secret))
+        at = rng.randrange(1, 2 * len(seq) + 1)
+        exc = rng.choice([_socket.timeout('timed out'), InterruptedError(4, 'Interrupted system call')])
+        sock = Faulty(at, exc)
+        out = sock
+        if secret is not None:
+            cipher = encryption.create_AES_cipher(secret)
+            out = encryption.EncryptedSocketWrapper(sock, cipher.encryptor(), cipher.decryptor())
+        raised = None
+        for n, (pid, data, _k) in enumerate(seq):
+            p = Raw(context=ConnectionContext(protocol_version=757))
+            p.id, p.data = pid, data
+            try:
+                p.write(out, thr)
+            except Exception as e:
+                raised = (n, e)
+                break
+        wire = b''.join(sock.sends)
+        chk.count('writer-transient-fault', [thr, secret.hex() if secret else None, at, type(exc).__name__, [(i, d.hex()[:32], len(d)) for i, d, _k in seq]], True)
+        what = None
+        if raised is not None and raised[1] is not exc:
+            what = 'the caller of Packet.write got %s, not the error the socket raised (%s)' % (exn_name(raised[1]), exn_name(exc))
+        elif raised is not None and not clean.startswith(wire):
+            what = 'after the error reached the caller the wire is not a prefix of the fault-free stream'
+        elif raised is None and sock.calls >= at and wire != clean:
+            what = 'the error did not reach the caller, and the wire (%d bytes) is not the fault-free stream (%d bytes)' % (len(wire), len(clean))
+        if what:
+            chk.violation('writer', 'writer-transient:%s:%s:%d' % (thr, secret is not None, at), {'case': dict(case_of(seq, thr, secret, None), failing_send_call=at, error=exn_name(exc)),
+                          'wire': wire.hex()[:1000], 'fault_free_wire': clean.hex()[:1000], 'observed': what},
+                          'threshold %s%s, send() call %d fails once with %s: %s' % (thr, ', encrypted' if secret else '', at, exn_name(exc), what))
 
 
 def case_of(seq, thr, secret, cuts):
